@@ -268,6 +268,19 @@ fn main() {
                 for _ in 0..n {
                     let kind = *rng.pick(&kinds);
                     let len = if rng.chance(1, 3) { rng.below(7) as usize } else { 7 + rng.below(34) as usize };
+                    // a quarter of the cases is a bare subscript (every kind, incl. one-shot
+                    // iterators: a non-negative subscript must not drain the iterator first)
+                    if rng.chance(1, 4) {
+                        let i = if kind == "oneshot" {
+                            rng.below(len as u64 + 3) as i64
+                        } else {
+                            rng.below(2 * len as u64 + 5) as i64 - len as i64 - 2
+                        };
+                        let suffix = format!("[{}]", i);
+                        let r = run_chain(&env, kind, len, &suffix);
+                        writeln!(out, "chain {} {} {}\t{}", kind, len, suffix, r).unwrap();
+                        continue;
+                    }
                     let mut suffix = rnd_slice(&mut rng, len);
                     // one-shot iterators can be iterated once: a single op only
                     if kind != "oneshot" {
